@@ -3,8 +3,10 @@
 // ---- harness `cvec` (C33) ---------------------------------------------------------------------------
 // params: cap kDefaultCapacity (2 or 4; first bucket = cap/2 elements), strat 0 kFullBufferAhead /
 //         1 kHalfBufferAhead / 2 kAsNeeded, inl kPreferBuffersInline, fast kIteratorPreferSpeed,
-//         init = elements T0 appends before the threads start (tags 100+i), t0..t2 grower programs,
-//         rd=1 adds a reader thread holding a reference, a pointer and an iterator to element 0 (needs init>=1).
+//         init = elements T0 appends before the threads start (tags 100+i), t0..t2 grower programs (alternatives
+//         separated by '|' are all explored via mc::choose; sym=1 keeps only non-decreasing picks),
+//         rd=1 adds a reader thread holding a reference, a pointer and an iterator to element 0 (needs init>=1),
+//         which looks rr times (default 2) at arbitrary points.
 // program letters (a digit follows the letters that take a count):
 //   p push_back(const T&)   P push_back(T&&)   e emplace_back(tag)
 //   g<k> grow_by(k, value)  G<k> grow_by(k) (default-constructed, then the thread writes its tag)
@@ -16,9 +18,10 @@
 //
 // ---- harness `arena` (C37, concurrent) --------------------------------------------------------------
 // params: bs minimum buffer size (1, 2, 4; 3 rounds up to 4), pre = elements grown by T0 before the threads
-//         start, g0..g2 dotted lists of grow_by amounts per thread (g0 runs on T0), rd=1 reader holding &arena[0].
+//         start, g0..g2 dotted lists of grow_by amounts per thread (g0 runs on T0; '|' separates alternatives,
+//         sym=1 as above), rd=1 reader holding &arena[0].
 // ---- harness `arena_copy` (C37, sequential, bound 0) ------------------------------------------------
-// params: bs, nb = number of internal buffers the source arena is grown to (1..6). mc::choose enumerates the
+// params: bs, nb = number of internal buffers the source arena is grown to (1..6; 0 = all of them). mc::choose enumerates the
 //         fill within the last buffer, one-shot vs element-wise growth, and the operation: copy-construct,
 //         copy-assign, move-construct, move-assign, swap.
 #include "mc_harness.h"
@@ -26,6 +29,27 @@
 #include <dispenso/concurrent_vector.h>
 
 namespace {
+// mc_cover() keeps its table with strncmp/strncpy, which TSan intercepts even inside the uninstrumented engine:
+// two threads marking coverage would be reported as a race of the engine with itself.
+static void hcover(const char* name) {
+  mc::TsanIgnore ig;
+  mc::cover(name);
+}
+// A program parameter may list alternatives separated by '|': one of them is picked with mc::choose, so a
+// single run explores every combination of alternatives jointly with the schedules. Returns the index too.
+static std::string pick_alt(const std::string& spec, int* index = nullptr) {
+  std::vector<std::string> alts;
+  size_t from = 0;
+  for (;;) {
+    size_t bar = spec.find('|', from);
+    alts.push_back(spec.substr(from, bar == std::string::npos ? std::string::npos : bar - from));
+    if (bar == std::string::npos) break;
+    from = bar + 1;
+  }
+  int i = alts.size() > 1 ? mc::choose((int)alts.size()) : 0;
+  if (index) *index = i;
+  return alts[(size_t)i];
+}
 template <int Cap>
 struct VElem : mc::Tracked<int> {
   typedef mc::Tracked<int> Base;
@@ -102,8 +126,8 @@ struct CVec {
     for (int q = 0; q < k; q++, ++it) MC_CHECK((*it).v == want, "%s: element %ld of the returned range holds %d, expected %d", what, s + q, (*it).v, want);
     log.add(s, k, tagv);
     fixed_growth.add(k);
-    if (k > 1 && bucket_of((size_t)s) != bucket_of((size_t)(s + k - 1))) mc::cover("cvec_range_spans_buckets");
-    if (k > 2 && bucket_of((size_t)s) + 1 < bucket_of((size_t)(s + k - 1))) mc::cover("cvec_range_spans_3_buckets");
+    if (k > 1 && bucket_of((size_t)s) != bucket_of((size_t)(s + k - 1))) hcover("cvec_range_spans_buckets");
+    if (k > 2 && bucket_of((size_t)s) + 1 < bucket_of((size_t)(s + k - 1))) hcover("cvec_range_spans_3_buckets");
   }
 
   void run(int self, const std::string& prog) {
@@ -166,14 +190,14 @@ struct CVec {
           mtags[nmt.add(1)].set(tagv);
           v.grow_to_at_least((size_t)k, e);
           MC_CHECK(v.size() >= (size_t)k, "size() is %zu after grow_to_at_least(%d, value) returned", v.size(), k);
-          mc::cover("cvec_grow_to_at_least");
+          hcover("cvec_grow_to_at_least");
           break;
         }
         case 'M': {
           default_m.set(1);
           v.grow_to_at_least((size_t)k);
           MC_CHECK(v.size() >= (size_t)k, "size() is %zu after grow_to_at_least(%d) returned", v.size(), k);
-          mc::cover("cvec_grow_to_at_least");
+          hcover("cvec_grow_to_at_least");
           break;
         }
         default:
@@ -185,24 +209,28 @@ struct CVec {
   void body(const mc::Params& P) {
     int init = (int)P("init", 0);
     bool rd = P("rd", 0) != 0;
-    std::string progs[3] = {P.s("t0", ""), P.s("t1", ""), P.s("t2", "")};
+    int idx[3];
+    std::string progs[3] = {pick_alt(P.s("t0", ""), &idx[0]), pick_alt(P.s("t1", ""), &idx[1]), pick_alt(P.s("t2", ""), &idx[2])};
+    if (P("sym", 0) && (idx[1] < idx[0] || (!progs[2].empty() && idx[2] < idx[1]))) return; // multisets only
+    mc::observe("progs", idx[0] * 4096 + idx[1] * 64 + idx[2]);
     for (int i = 0; i < init; i++) {
       v.push_back(Elem(100 + i));
       log.add(i, 1, 100 + i);
       fixed_growth.add(1);
     }
     if (rd && init >= 1) {
-      mc::spawn([&, init] {
+      int rounds = (int)P("rr", 2);
+      mc::spawn([&, init, rounds] {
         Elem& r0 = v[0];
         Elem* p0 = &v[0];
         auto it0 = v.begin();
         size_t last = v.size();
-        for (int round = 0; round < 2; round++) {
+        for (int round = 0; round < rounds; round++) {
           mc::point();
           MC_CHECK(r0.v == 100, "held reference to element 0 reads %d, expected 100", r0.v);
           MC_CHECK((*it0).v == 100, "held iterator to element 0 reads %d, expected 100", (*it0).v);
           MC_CHECK(&v[0] == p0, "element 0 moved while the vector was growing");
-          auto it = v.begin();
+          auto it = it0;
           for (int i = 0; i < init; i++, ++it) {
             MC_CHECK(v[(size_t)i].v == 100 + i, "published element %d reads %d through operator[], expected %d", i, v[(size_t)i].v, 100 + i);
             MC_CHECK((*it).v == 100 + i, "published element %d reads %d through an iterator, expected %d", i, (*it).v, 100 + i);
@@ -210,8 +238,7 @@ struct CVec {
           size_t s = v.size();
           MC_CHECK(s >= last, "size() went from %zu to %zu", last, s);
           last = s;
-          MC_CHECK((size_t)(v.end() - v.begin()) >= s, "end() - begin() is smaller than an earlier size()");
-          mc::cover("cvec_reader");
+          hcover("cvec_reader");
         }
       });
     }
@@ -258,8 +285,8 @@ struct CVec {
     MC_CHECK(size == fixed_growth.get() + unknown, "final size() %ld != total growth %ld", size, fixed_growth.get() + unknown);
     if (nmt.get() == 0 && !default_m.get()) MC_CHECK(unknown == 0, "final size() %ld exceeds the total growth %ld", size, fixed_growth.get());
     if (init >= 1) MC_CHECK(v[0].v == 100 && v.front().v == 100, "element 0 changed");
-    if (bucket_of((size_t)(size > 0 ? size - 1 : 0)) >= 2) mc::cover("cvec_bucket_allocated");
-    if (bucket_of((size_t)(size > 0 ? size - 1 : 0)) >= 3) mc::cover("cvec_two_buckets_allocated");
+    if (bucket_of((size_t)(size > 0 ? size - 1 : 0)) >= 2) hcover("cvec_bucket_allocated");
+    if (bucket_of((size_t)(size > 0 ? size - 1 : 0)) >= 3) hcover("cvec_two_buckets_allocated");
     mc::observe("size", size);
     // order of the ranges is the outcome: who got which index
     long sig = 0;
@@ -335,7 +362,10 @@ MC_HARNESS(arena) {
   size_t bs = (size_t)P("bs", 1);
   int pre = (int)P("pre", 1);
   bool rd = P("rd", 0) != 0;
-  std::vector<int> g[3] = {parse_list(P.s("g0", "")), parse_list(P.s("g1", "")), parse_list(P.s("g2", ""))};
+  int gi[3];
+  std::vector<int> g[3] = {parse_list(pick_alt(P.s("g0", ""), &gi[0])), parse_list(pick_alt(P.s("g1", ""), &gi[1])), parse_list(pick_alt(P.s("g2", ""), &gi[2]))};
+  if (P("sym", 0) && (gi[1] < gi[0] || (!g[2].empty() && gi[2] < gi[1]))) return; // multisets only
+  mc::observe("amounts", gi[0] * 4096 + gi[1] * 64 + gi[2]);
   RangeLog log;
   {
     Arena arena(bs);
@@ -351,26 +381,26 @@ MC_HARNESS(arena) {
         e.owner = tagv;
       }
       log.add((long)s, k, tagv);
-      if (k > 1 && (s / bufsz) != ((s + k - 1) / bufsz)) mc::cover("arena_range_spans_buffers");
+      if (k > 1 && (s / bufsz) != ((s + k - 1) / bufsz)) hcover("arena_range_spans_buffers");
     };
     for (int i = 0; i < pre; i++) {
       size_t s = arena.grow_by(1);
       arena[s].owner = 100 + i;
       log.add((long)s, 1, 100 + i);
     }
+    int rounds = (int)P("rr", 2);
     if (rd && pre >= 1)
       mc::spawn([&] {
         AElem* p0 = &arena[0];
         size_t last = arena.size();
-        for (int round = 0; round < 2; round++) {
+        for (int round = 0; round < rounds; round++) {
           mc::point();
           MC_CHECK(p0->owner == 100 && p0->v == kDefaultV, "held reference to element 0 reads v=%x owner=%d", p0->v, p0->owner);
-          MC_CHECK(&arena[0] == p0, "element 0 moved while the arena was growing");
-          for (int i = 0; i < pre; i++) MC_CHECK(arena[(size_t)i].owner == 100 + i, "existing element %d reads owner=%d", i, arena[(size_t)i].owner);
+          for (int i = 0; i < pre; i++) MC_CHECK(arena[(size_t)i].owner == 100 + i && &arena[0] == p0, "existing element %d reads owner=%d, or element 0 moved", i, arena[(size_t)i].owner);
           size_t s = arena.size();
           MC_CHECK(s >= last, "size() went from %zu to %zu", last, s);
           last = s;
-          mc::cover("arena_reader");
+          hcover("arena_reader");
         }
       });
     for (int t = 1; t < 3; t++)
@@ -405,8 +435,8 @@ MC_HARNESS(arena) {
     size_t covered = 0;
     for (size_t b = 0; b < arena.numBuffers(); b++) covered += arena.getBufferSize(b);
     MC_CHECK(covered == (size_t)size, "getBufferSize() sums to %zu, size() is %ld", covered, size);
-    if (arena.numBuffers() > 1) mc::cover("arena_new_buffer");
-    if (arena.numBuffers() > 2) mc::cover("arena_pointer_array_regrown");
+    if (arena.numBuffers() > 1) hcover("arena_new_buffer");
+    if (arena.numBuffers() > 2) hcover("arena_pointer_array_regrown");
     mc::observe("size", size);
     long sig = 0;
     for (long i = 0; i < size; i++) sig = sig * 7 + expected[i];
@@ -448,7 +478,8 @@ void grow_more(Arena& a, size_t n, int salt, size_t bufsz, const char* what) {
 
 MC_HARNESS(arena_copy) {
   size_t bs = (size_t)P("bs", 1);
-  size_t nb = (size_t)P("nb", 1);
+  size_t nb = (size_t)P("nb", 0);
+  if (nb == 0) nb = (size_t)mc::choose(6) + 1; // nb=0: every buffer count 1..6
   size_t bufsz = 1;
   while (bufsz < bs) bufsz *= 2;
   size_t off = (size_t)mc::choose((int)bufsz);
@@ -460,10 +491,10 @@ MC_HARNESS(arena_copy) {
   same(src, n, 1000, bufsz, "source");
   MC_CHECK(src.numBuffers() == nb, "harness: source has %zu buffers, wanted %zu", src.numBuffers(), nb);
   mc::observe("n", (long)n);
-  mc::observe("op", op);
+  mc::observe("op", op * 2 + (oneshot ? 1 : 0));
   switch (op) {
     case 0: {
-      mc::cover("arena_copy_construct");
+      hcover("arena_copy_construct");
       Arena c(src);
       same(c, n, 1000, bufsz, "copy-constructed arena");
       same(src, n, 1000, bufsz, "source after copy construction");
@@ -476,7 +507,7 @@ MC_HARNESS(arena_copy) {
       break;
     }
     case 1: {
-      mc::cover("arena_copy_assign");
+      hcover("arena_copy_assign");
       Arena d(2 * bufsz); // different geometry and contents
       fill_arena(d, 3, true, 5000);
       d = src;
@@ -487,14 +518,14 @@ MC_HARNESS(arena_copy) {
       break;
     }
     case 2: {
-      mc::cover("arena_move_construct");
+      hcover("arena_move_construct");
       Arena m(std::move(src));
       same(m, n, 1000, bufsz, "move-constructed arena");
       grow_more(m, n, 1000, bufsz, "move-constructed arena after growth");
       break;
     }
     case 3: {
-      mc::cover("arena_move_assign");
+      hcover("arena_move_assign");
       Arena d(2 * bufsz);
       fill_arena(d, 3, true, 5000);
       d = std::move(src);
@@ -503,7 +534,7 @@ MC_HARNESS(arena_copy) {
       break;
     }
     default: {
-      mc::cover("arena_swap");
+      hcover("arena_swap");
       Arena d(2 * bufsz);
       fill_arena(d, 2 * bufsz + 1, false, 5000);
       swap(src, d);
